@@ -28,4 +28,12 @@ RandomIsUniform == \A c \in Cases : LET w == c[1]  q == c[2]  t == Tally(w)
    /\ FoldSet(LAMBDA f, acc : RAdd(PickProb(bag, w, f), acc), R(0), picks) = R(1)
    /\ \A r \in pile : FoldSet(LAMBDA f, acc : RAdd(RMul(PickProb(bag, w, f), R(f[r])), acc), R(0), picks) = RDiv(R(K * bag[r][1]), R(IF tot = 0 THEN 1 ELSE tot))
    /\ \A o \in RandomResults(bag, w, t, q) : w \notin CandsCast(o[1]) /\ RLe(Total(o[1]), RSub(Total(bag), R(q)))
+(* the enumeration-free membership predicate used for piles of thousands of votes agrees with the enumerated set: every pick satisfies *)
+(* it, and no bag obtained from a function that is NOT a legal pick (wrong size, or more copies of a ballot than exist) does            *)
+PickPredicateAgrees == \A c \in Cases : LET w == c[1]  q == c[2]  t == Tally(w)
+                                            pile == Transferable(bag, w)
+                                            tot  == SumInt([r \in pile |-> bag[r][1]], pile)
+                                            picks == RandPicksQ(bag, w, t, q) IN
+   /\ \A o \in RandomResults(bag, w, t, q) : IsRandomResult(bag, w, t, q, o[1])
+   /\ \A f \in [pile -> 0..(tot + 1)] \ picks : ~IsRandomResult(bag, w, t, q, RemoveCands(ApplyPick(bag, w, f), {w}))
 =============================================================================
